@@ -141,6 +141,9 @@ def pess_size(it):
         return it['n']
     if k == 'labimm':
         return it['max']
+    if k == 'packn':
+        import struct
+        return struct.calcsize(it['fmt'])
     raise KeyError(k)
 
 
@@ -197,8 +200,11 @@ def gen(rng, cfg=None):
                 items.append({'k': 'seq', 'd': 'bytes', 'vals': [rng.randrange(-128, 256) for _ in range(nb)]})
                 if nb % 2:
                     items.append({'k': 'align', 'n': rng.choice([2, 4])})
+            elif d == 2 and rng.random() < 0.25:
+                # accepted but undocumented: a pack format without the byte-order character (native mode: `L` is 8 bytes on this host)
+                items.append({'k': 'packn', 'fmt': rng.choice(['L', 'l', 'I', 'H', 'Q', 'i']), 'val': rng.randrange(0, 1 << 15)})
             elif d == 2:
-                items.append({'k': 'data', 'd': rng.choice(['dh', 'dw', 'dd']), 'val': {'i': rng.randrange(0, 1 << 15)}})
+                items.append({'k': 'data', 'd': rng.choice(['dh', 'dw', 'dd']), 'val': {'i': rng.choice([rng.randrange(0, 1 << 15), -rng.randrange(1, 1 << 15), -1, -(1 << 15), 0xffff])}})
             else:
                 items.append({'k': 'labdata', 'd': rng.choice(['dw', 'dd', 'pack'])})
         elif k == 'align':
@@ -213,7 +219,10 @@ def gen(rng, cfg=None):
             s = ''.join(rng.choice('abcXYZ 019_') for _ in range(rng.randint(1, 6)) )
             if rng.random() < 0.35:
                 s += rng.choice(['é', 'ß', '中', '€', '😀', 'Ω'])        # UTF-8 length differs from the character count
-            items.append({'k': 'string', 'text': s.strip() or 'x'})
+            s = s.lstrip() or 'x'
+            if rng.random() < 0.25:
+                s = s.rstrip() + rng.choice([' ', '  ', '\t', ' \t '])       # the text runs to the end of the line: trailing blanks belong to it
+            items.append({'k': 'string', 'text': s})
             if len(items[-1]['text'].encode('utf-8')) % 2:
                 items.append({'k': 'align', 'n': 2})
     # ---- pessimistic offsets, then resolve transfers and label-valued operands
